@@ -320,6 +320,8 @@ class Impl:
             'last_values': {p.get_id(): p.get_last_read_value() for p in s.core_ports.get_all()},
             'password_hashes': {w: getattr(s.device_attrs, w + '_password_hash') for w in ('admin', 'normal', 'viewonly')},
             'vport_args': sorted(s.core_vports._vport_args),
+            'slave_port_owners': {p.get_id(): [p._slave.get_name(), p.get_remote_id()] for p in s.core_ports.get_all()
+                                  if isinstance(p, s.slaves_ports.SlavePort)},
             'slave_internals': {
                 sl.get_name(): {'webhooks': sl._cached_webhooks, 'reverse': sl._cached_reverse,
                                 'provisioning_webhooks': sl._provisioning_webhooks,
@@ -350,6 +352,10 @@ class Impl:
             return await s.call(s.api_ports.patch_port_value, 'PATCH', '/ports/%s/value' % op['id'], op['id'], op['value'])
         if k == 'patch_device':
             return await s.call(s.api_device.patch_device, 'PATCH', '/device', dict(op['attrs']))
+        if k == 'put_device_backup':
+            # restore the backup just taken: GET /device, then PUT /device with that very document
+            doc = json.loads(json.dumps(await s.api_device.get_device(s.handler('GET', '/device')), default=str))
+            return await s.call(s.api_device.put_device, 'PUT', '/device', doc)
         if k == 'add_slave':
             sim = s.sims['%s:%s' % (op['host'], op['port'])]
             sim.reachable = True
